@@ -280,68 +280,8 @@ def sizes_along(ops, kind='vec'):
         r.apply(n, a)
 
 
-def has_uninit_growth(ops):
-    """a sized construction with n > 0 or a resize above the current size (new elements are never initialised)"""
-    for n, a, st in sizes_along(ops, 'vec'):
-        if n == 'ctorN' and st[a[0]] is None and a[1] > 0:
-            return True
-        if n == 'resize' and st[a[0]] is not None and a[1] > len(st[a[0]]):
-            return True
-    return False
-
-
-def has_zero_sized_dropped(ops):
-    """an object built by vector(0) is destroyed (or still alive at the end) before anything made it grow"""
-    zero = [False] * NSLOTS
-    for n, a, st in sizes_along(ops):
-        s = a[0]
-        if n == 'ctorN' and st[s] is None:
-            zero[s] = (a[1] == 0)
-        elif n in ('ctor', 'ctorV', 'copy') and st[s] is None:
-            zero[s] = False
-        elif st[s] is not None:
-            if n in ('push',) or (n == 'pushAt' and a[1] < len(st[s])):
-                zero[s] = False
-            elif n == 'resize' and a[1] > 0:
-                zero[s] = False
-            elif n == 'assign' and st[a[1]] is not None and len(st[a[1]]) > 0:
-                zero[s] = False
-            elif n == 'destroy':
-                if zero[s]:
-                    return True
-                zero[s] = False
-    return any(zero)
-
-
 def has_alias_push(ops):
     return any(n == 'pushAt' for n, a in ops)
-
-
-def svec_oversize_ctor(ops):
-    """static_vector(n) with n > Capacity"""
-    return any(n == 'ctorN' and st[a[0]] is None and a[1] > SVEC_CAP for n, a, st in sizes_along(ops, 'svec'))
-
-
-def svec_grow_after_shrink(ops):
-    """a resize that grows an object (within the capacity) after some object has been shrunk (resize down or
-    assignment from a shorter source): the re-exposed cells keep their old values"""
-    shrunk = False
-    for n, a, st in sizes_along(ops, 'svec'):
-        o = st[a[0]]
-        if o is None:
-            continue
-        if n == 'resize' and a[1] <= SVEC_CAP:
-            if a[1] > len(o) and shrunk:
-                return True
-            if a[1] < len(o):
-                shrunk = True
-        if n == 'assign' and st[a[1]] is not None and len(st[a[1]]) < len(o):
-            shrunk = True
-    return False
-
-
-def svec_growing_resize(ops):
-    return any(n == 'resize' and st[a[0]] is not None and len(st[a[0]]) < a[1] <= SVEC_CAP for n, a, st in sizes_along(ops, 'svec'))
 
 
 def small_ever_dynamic(ops):
@@ -366,29 +306,14 @@ def small_ever_dynamic(ops):
     return False
 
 
-def small_growth(ops):
-    """small_vector(N) with N >= DIM or a resize above the current size"""
-    for n, a, st in sizes_along(ops, 'small'):
-        if n == 'ctorN' and st[a[0]] is None and a[1] >= SMALL_DIM:
-            return True
-        if n == 'resize' and st[a[0]] is not None and a[1] > len(st[a[0]]):
-            return True
-    return False
-
-
 def in_domain(kind, ops):
-    """(contents, ledger): the history lies in the hypothesis domain of the Lean refinement theorem of its kind
-    (vecOk / svecOk / smallOk / all histories) resp. of the ledger theorems (ledOk false / svecSafeOk / stays static)"""
-    if kind == 'vec':
-        alias = has_alias_push(ops)
-        return (not has_uninit_growth(ops) and not alias,
-                not alias and not any(n == 'ctorN' and a[1] == 0 for n, a in ops))
-    if kind == 'svec':
-        return (not svec_oversize_ctor(ops) and not svec_growing_resize(ops), not svec_oversize_ctor(ops))
-    if kind in ('arr', 'tuple', 'tuplev2'):
+    """(contents, ledger): the history lies in the hypothesis domain of the Lean refinement theorem of its kind resp. of
+    the ledger theorems.  After the fix: commits vector and static_vector have no excluded operation; small_vector
+    refines std::vector on every history of its alphabet, its ledger is only clean while every object stays static."""
+    if kind in ('vec', 'svec', 'arr', 'tuple', 'tuplev2'):
         return (True, True)
     if kind == 'small':
-        return (not small_growth(ops) and not has_alias_push(ops), not small_ever_dynamic(ops))
+        return (not has_alias_push(ops), not small_ever_dynamic(ops))
     return (False, False)
 
 
@@ -448,12 +373,6 @@ def _poison_pred(case):
 
 
 KNOWN_PREDICATES = {
-    'vec_uninit_growth': _pred('vec', has_uninit_growth, 'contents'),
-    'vec_zero_sized_dropped': _pred('vec', has_zero_sized_dropped, 'ledger'),
-    'vec_alias_push': _pred('vec', has_alias_push, 'contents'),
-    'svec_oversize_ctor': _pred('svec', svec_oversize_ctor, 'contents'),
-    'svec_grow_after_shrink': _pred('svec', svec_grow_after_shrink, 'contents'),
-    'small_growth': _pred('small', small_growth, 'contents'),
     'small_ever_dynamic': _pred('small', small_ever_dynamic, 'ledger'),
     'small_copy_dynamic_raw_storage': _poison_pred,
     'maybe_nt_assign_unconstructed': _lpred('maybe', 'assign'),
@@ -799,8 +718,7 @@ def gen_san(tier, rng):
         yield san_case(kind, elem, parse_ops(ops), ['witness'])
     for kind, elem, ops in EWITNESSES:
         yield san_case(kind, elem, parse_ops(ops), ['witness'])
-    # aliasing pushes abort the sanitizer build (heap-use-after-free): only a few of them, each costs a restart
-    for ops in enum_histories(4 if quick else 5, two=False, nopushat=True):
+    for ops in enum_histories(4 if quick else 5, two=False):
         yield san_case('vec', 'int', ops, ['exhaustive-1obj'])
     for ops in enum_histories(4 if quick else 5, two=False, kind='small', resizes=(0, 3, 4, 6), sized=(2, 6), variadic=(3, 5), nopushat=True):
         yield san_case('small', 'int', ops, ['exhaustive-1obj'])
@@ -809,8 +727,7 @@ def gen_san(tier, rng):
     for k in range(150 if quick else 2000):
         L = rng.choice([6, 12, 30, 80, 200])
         e = rng.choice(['int', 'double'])
-        h = rand_history(rng, L)
-        yield san_case('vec', e, h if k % 8 == 0 else [o for o in h if o[0] != 'pushAt'], ['random'])
+        yield san_case('vec', e, rand_history(rng, L), ['random'])
         yield san_case('vec', e, rand_domain_history(rng, L), ['random-domain'])
         yield san_case('svec', e, rand_history(rng, L, cap=SVEC_CAP, maxn=7, vmax=4), ['random'])
         yield san_case('small', e, [o for o in rand_history(rng, L, maxn=7, vmax=6) if o[0] != 'pushAt'], ['random'])
@@ -857,11 +774,9 @@ ASSUMPTIONS = ['glibc malloc/free behave; the ledger is the counting allocator b
                'element type parametric model (alpha = Int in the driver): int, double (multiples of 0.5) and the counting type carry integer payloads',
                'small_vector is checked with its STL-free parts (utl::either / utl::static_vector / utl::vector) passed explicitly as template arguments, DIM = 4, T = int/double (layouts where the union bytes of a value-initialised static_vector read as a null vector); push_back(x[i]) is not part of the alphabet for small_vector',
                'utl::tuple / tuplev2 are homogeneous 3-tuples accessed through utl::get<I>; they share the array model']
-PARTIAL = ['no_leak / no_double_free / no_oob / self_assign_noop / no_shared_block (vector ledger theorems) exclude every push_back(x[i]) although only the reallocating ones (full buffer) are defective; vector_refines_list likewise',
-           'staticVector_refines excludes every resize that grows within the capacity although growth of never-used cells is correct (only re-exposed cells are stale)',
-           'small_vector: no ledger theorem (e.g. "histories that stay in static mode never touch the heap") — only the refinement theorem, counterexamples and the correspondence run cover its allocator behaviour',
+PARTIAL = ['small_vector: no ledger theorem (e.g. "histories that stay in static mode never touch the heap") — only the refinement theorem, the leak counterexample and the correspondence run cover its allocator behaviour; push_back(x[i]) is outside its alphabet',
            'either/maybe lifetime theorem either_nontrivial_lifetime_ok covers only histories that never store a left value (every other history of a non-trivial type misbehaves: either_never_destroys)']
 MANIFEST = dict(
-    text='Proof: 31 Lean theorems over all operation histories (List Op, any number of object slots, induction done once in a generic simulation / invariant lemma): utl::vector, static_vector, array/tuple, small_vector, maybe and either refine List / bounded List / Sum on explicitly stated decidable history domains; vector additionally refines std::vector up to never-written value-initialised elements on every history; copy independence, self-assignment no-op, no leak / no double free / no out-of-bounds from an explicit allocation ledger; 12 counterexample theorems for defects of the unchanged tree. Tied to the real headers on every run by replaying ~5.7e5 (quick) / ~3.4e6 (thorough) histories against the real containers with a counting allocator and a counting element type, three-way IMPL / MODEL / Python-list ORACLE, plus an ASan+UBSan flavour.',
-    note='Lean kernel + propext/Classical.choice/Quot.sound; model hand-written, fidelity rests on the correspondence run (which also compares capacity, stale cells and malloc/free counters after every step); theorem domains exclude exactly the listed defect classes (13 known findings with witnesses); partial statements are listed in PARTIAL',
+    text='Proof: 23 Lean theorems over all operation histories (List Op, any number of object slots, induction done once in a generic simulation / invariant lemma): utl::vector refines std::vector on EVERY history (sized construction, growing resize, push_back(x[i]) included) and its allocation ledger shows no leak, no double free, no out-of-bounds access, self-assignment is a no-op; static_vector refines the capacity-bounded list with refusal on every history; array/tuple refine std::array; small_vector refines std::vector across the static/dynamic switch; maybe/either refine Option/Sum for trivial and non-trivial T; copies are independent; 5 counterexample theorems for the remaining defects (lifetime handling of maybe/either for non-trivial T, small_vector heap mode). Tied to the real headers on every run by replaying ~3.7e5 (quick) / ~2.1e6 (thorough) histories against the real containers with a counting allocator and a counting element type, three-way IMPL / MODEL / Python-list ORACLE, plus an ASan+UBSan flavour.',
+    note='Lean kernel + propext/Classical.choice/Quot.sound; model hand-written and following the repaired code (fix: commits C19-vector-value-init, -zero-sized-free, -alias-push, C19-static-vector-oversize-ctor, -grow-init); fidelity rests on the correspondence run (which also compares capacity, stale cells and malloc/free counters after every step); 7 known findings (maybe/either lifetime, small_vector heap mode) with witnesses; partial statements are listed in PARTIAL',
     technique='Lean 4 simulation and invariant proofs over List Op histories + differential history replay with allocator / lifetime ledgers')
